@@ -34,9 +34,8 @@ strlcat(char *dest, const char * src, size_t maxlen)
 {
 	size_t	curlen = strlen(dest);
 	size_t	addlen = strlen(src);
-	size_t	appendlen = maxlen - curlen;
-	if (appendlen > 0) {
-		strlcpy(dest+curlen, src, appendlen);
+	if (curlen < maxlen) {
+		strlcpy(dest+curlen, src, maxlen - curlen);
 	}
 	return curlen + addlen;
 }
